@@ -247,7 +247,8 @@ def _t_ret(line, arg=None):
 
 
 def _t_r8(line, arg=None):
-    """R8: destructuring assignment `(a, b) = e;` -> `let verif_t = e; a = verif_t.0; b = verif_t.1;`"""
+    """R8: destructuring assignment `(a, b) = e;` / `(a, b, c) = e;` -> `let verif_t = e; a = verif_t.0; b = verif_t.1; ..`"""
+    line = re.sub(r'^(\s*)\((\w+), (\w+), (\w+)\) = (.*);\s*$', r'\1let verif_t = \5; \2 = verif_t.0; \3 = verif_t.1; \4 = verif_t.2;', line)
     return re.sub(r'^(\s*)\((\w+), (\w+)\) = (.*);\s*$', r'\1let verif_t = \4; \2 = verif_t.0; \3 = verif_t.1;', line)
 
 
@@ -435,6 +436,9 @@ def key(line):
         return 'for %s in %s..%s' % (m10.group(1), m10.group(2), m10.group(3))
     s = re.sub(r'^for (\w+) in verif_it: ', r'for \1 in ', s)
     s = re.sub(r'^for verif_it in ', 'for _ in ', s)
+    m8 = re.match(r'^let verif_t = (.*); (\w+) = verif_t\.0; (\w+) = verif_t\.1; (\w+) = verif_t\.2;$', s)
+    if m8:
+        return '(%s, %s, %s) = %s;' % (m8.group(2), m8.group(3), m8.group(4), m8.group(1))
     m8 = re.match(r'^let verif_t = (.*); (\w+) = verif_t\.0; (\w+) = verif_t\.1;$', s)
     if m8:
         return '(%s, %s) = %s;' % (m8.group(2), m8.group(3), m8.group(1))
